@@ -118,50 +118,61 @@ Proof. split; vm_compute; reflexivity. Qed.
 (* ---- muc ---- *)
 
 Example ex_muc_join_leave :
-  exists s, run muc_step muc_init
+  exists s, run (muc_step true) muc_init
       [MStartJoin; MEnter 0; MAvailArrive; MTake; MJoinRecv 0; MAvailArrive; MTake;
        MStartLeave; MEnter 1; MUnavailArrive; MDepartTo 1] = Some s /\
-    map mcall_code (mu_calls s) = [MCJoined; MCLeft] /\ mu_user s = 1 /\ mu_gone s = true /\ mu_h s = MHIdle.
-Proof. eexists. split; [vm_compute; reflexivity|]. repeat split. Qed.
+    map mcall_code (mu_calls s) = [MCJoined; MCLeft] /\ mu_user s = 1 /\ settled s /\ mu_h s = MHIdle.
+Proof. eexists. split; [vm_compute; reflexivity|]. repeat split. discriminate. Qed.
+
+(* hypotheses of C06_muc_single_leave: the departure is handled before the
+   Leave call reaches its select; the notification waits for it, then it is taken *)
+Example ex_muc_kept :
+  exists s c, run (muc_step true) muc_init
+      [MStartJoin; MEnter 0; MAvailArrive; MTake; MJoinRecv 0; MStartLeave; MUnavailArrive; MDepartKept; MEnter 1] = Some s /\
+    settled s /\ length (mu_calls s) = 2 /\ nth_error (mu_calls s) 1 = Some c /\ m_pre c = true /\
+    mu_dtok s = true /\ waiting_leave c = true.
+Proof. eexists. eexists. split; [vm_compute; reflexivity|]. repeat split. discriminate. Qed.
 
 (* a cancelled join attempt is skipped by the handler; the presence goes to the user handler *)
 Example ex_muc_skip :
-  exists s, run muc_step muc_init [MStartJoin; MAvailArrive; MTake; MCancel 0; MSkip; MTake; MEnter 0; MCtx 0] = Some s /\
+  exists s, run (muc_step true) muc_init [MStartJoin; MAvailArrive; MTake; MCancel 0; MSkip; MTake; MEnter 0; MCtx 0] = Some s /\
     map mcall_code (mu_calls s) = [MCCtx] /\ mu_user s = 1 /\ mu_h s = MHIdle.
 Proof. eexists. split; [vm_compute; reflexivity|]. repeat split. Qed.
 
 Example ex_muc_case_ok :
-  muc_case_ok (mkmuccase lost_depart_trace [MCJoined; MCNone] 0 0) = true /\
-  muc_case_ok (mkmuccase lost_depart_trace [MCJoined; MCLeft] 0 0) = false.
+  muc_case_ok (mkmuccase drained_trace [MCJoined; MCNone; MCNone] 0 0) = true /\
+  muc_case_ok (mkmuccase lost_depart_trace [MCJoined; MCNone] 0 0) = false.
 Proof. split; vm_compute; reflexivity. Qed.
 
 (* ---- ibb ---- *)
 
-(* hypothesis of C06_ibb_read_eof_partial: a schedule without empty packets
-   that does produce EOF (after the peer's close) *)
+(* EOF after the peer's close, data first *)
 Example ex_ibb_eof_after_close :
-  exists s, Forall nonempty_data [IRead 4; IWait; IData 3; INotify; IWake 4; IRead 4; IWait; ICloseRemote; IWake 4] /\
-    run ibb_step ibb_init [IRead 4; IWait; IData 3; INotify; IWake 4; IRead 4; IWait; ICloseRemote; IWake 4] = Some s /\
-    ib_outs s = [RdData 3; RdEOF] /\ ib_closed s = true.
-Proof. eexists. split; [repeat constructor|]. split; [vm_compute; reflexivity|]. split; reflexivity. Qed.
-
-(* hypothesis of C06_ibb_read_progress_partial: the restricted system does reach
-   a waiting reader, and wakes it *)
-Example ex_ibb_nw :
-  exists s, run ibb_step_nw ibb_init [IRead 4; IWait; IData 5; INotify; IWake 4; IRead 4] = Some s /\
-    ib_outs s = [RdData 4; RdData 1] /\ ib_buf s = 0.
+  exists s, run ibbf_step ibbf_init
+      [FRead 4; FWait; FData 3; FCheck; FNotify; FWake 4; FRead 4; FWait; FCloseRemote; FWake 4] = Some s /\
+    fb_outs s = [RdData 3; RdEOF] /\ fb_closed s = true.
 Proof. eexists. split; [vm_compute; reflexivity|]. split; reflexivity. Qed.
 
-(* the restriction excludes exactly the window *)
-Example ex_ibb_nw_window : exists s, run ibb_step_nw ibb_init [IRead 4] = Some s /\ ibb_step_nw s (IData 3) = None /\
-  ibb_step s (IData 3) <> None.
-Proof. eexists. split; [vm_compute; reflexivity|]. split; [reflexivity|discriminate]. Qed.
+(* buffered data is still delivered after a close, then EOF *)
+Example ex_ibb_drain_after_close :
+  exists s, run ibbf_step ibbf_init
+      [FData 5; FCheck; FNotify; FCloseLocal; FRead 4; FRead 4; FRead 4; FWait; FWake 4; FWait; FWake 4] = Some s /\
+    fb_outs s = [RdData 4; RdData 1; RdEOF].
+Proof. eexists. split; [vm_compute; reflexivity|]. reflexivity. Qed.
 
-(* hypothesis of C06_ibb_no_panic_partial: schedules without a local Close are plentiful *)
-Example ex_ibb_remote_close_then_data :
-  exists s, run ibb_step ibb_init [IData 2; INotify; ICloseRemote] = Some s /\ ibb_step s (IData 1) = None.
-Proof. eexists. split; [vm_compute; reflexivity|reflexivity]. Qed.
+(* hypotheses of C06_ibb_waiting_reader_is_woken *)
+Example ex_ibb_waiting :
+  exists s s1 s2, run ibbf_step ibbf_init [FRead 4; FWait] = Some s /\ fb_rd s = FWaiting /\ fb_h s = FHIdle /\
+    ibbf_step s (FData 2) = Some s1 /\ ibbf_step s1 FCheck = Some s2.
+Proof. eexists. eexists. eexists. split; [vm_compute; reflexivity|]. repeat split. Qed.
+
+(* a stale token: the reader wakes, finds nothing and waits again *)
+Example ex_ibb_stale_token :
+  exists s, run ibbf_step ibbf_init [FData 2; FCheck; FNotify; FRead 4; FRead 4; FWait; FWake 4; FWait] = Some s /\
+    fb_outs s = [RdData 2] /\ fb_rd s = FWaiting /\ fb_tok s = false.
+Proof. eexists. split; [vm_compute; reflexivity|]. repeat split. Qed.
 
 Example ex_ibb_case_ok :
-  ibb_case_ok (mkibbcase lost_wakeup_trace [] 2 3) = true /\ ibb_case_ok (mkibbcase lost_wakeup_trace [RdData 3] 0 0) = false.
+  ibbf_case_ok (mkibbfcase [FRead 4; FData 3; FCheck; FNotify; FWait] [] 3 3) = true /\
+  ibbf_case_ok (mkibbfcase [FRead 4; FData 3; FCheck; FNotify; FWait] [] 2 3) = false.
 Proof. split; vm_compute; reflexivity. Qed.
